@@ -124,6 +124,65 @@ theorem writes_no_err (k : K) (c : Code) (f : F) (e : E) : ∀ (rs : List (Rank 
           exact (List.nodup_append.1 nd).2.2 c hcps c hcr rfl
         · exact ih r.codes nd' hc2 he'
 
+theorem tups_nodup (k : K) (ps : List Code) (h : ps.Nodup) : (tups k ps).Nodup := by
+  cases ps with
+  | nil => simp [tups]
+  | cons p ps =>
+    simp only [tups, List.isEmpty_cons, Bool.false_eq_true, if_false]
+    unfold List.Nodup at h ⊢
+    rw [List.pairwise_map]
+    exact h.imp (fun hne he => hne (by injection he with h1 _; injection h1))
+
+/-- when the codes of different ranks are distinct, no composite key is written twice -/
+theorem writes_keys_nodup (k : K) : ∀ (rs : List (Rank F E)) (ps : List Code),
+    (ps ++ rankCodes rs).Nodup → ((writes k rs ps : List (W K F E)).map W.key).Nodup := by
+  intro rs
+  induction rs with
+  | nil => intro ps _; simp [writes]
+  | cons r rs ih =>
+    intro ps nd
+    have ndps : ps.Nodup := (List.nodup_append.1 nd).1
+    rw [writes_cons]
+    cases hf : r.func with
+    | none =>
+      simp only [List.map_map]
+      have : (W.key ∘ fun t => (W.e t r.err : W K F E)) = id := rfl
+      rw [this, List.map_id]
+      exact tups_nodup k ps ndps
+    | some g =>
+      simp only [List.map_append, List.map_map]
+      have : (W.key ∘ fun t => (W.c t g : W K F E)) = id := rfl
+      rw [this, List.map_id]
+      rw [rankCodes_cons] at nd
+      have nd' : (r.codes ++ rankCodes rs).Nodup := (List.nodup_append.1 nd).2.1
+      cases hce : r.codes.isEmpty with
+      | true => simpa using tups_nodup k ps ndps
+      | false =>
+        simp only [Bool.false_eq_true, if_false]
+        refine List.nodup_append.2 ⟨tups_nodup k ps ndps, ih r.codes nd', ?_⟩
+        intro a ha b hb hab
+        subst hab
+        obtain ⟨w, hw, rfl⟩ := List.mem_map.1 hb
+        obtain ⟨_, h2, h3⟩ := writes_keys k rs r.codes w hw
+        rcases (mem_tups k ps _).1 ha with ⟨_, h5⟩ | ⟨p, hp, h5⟩
+        · have := h2 (by rw [h5])
+          rw [this] at hce; simp at hce
+        · have := h3 p (by rw [h5])
+          exact (List.nodup_append.1 nd).2.2 p hp p (List.mem_append.2 this) rfl
+
+theorem eq_of_key_nodup : ∀ (l : List (W K F E)), (l.map W.key).Nodup →
+    ∀ a ∈ l, ∀ b ∈ l, a.key = b.key → a = b
+  | [], _, _, ha, _, _, _ => by cases ha
+  | x :: l, h, a, ha, b, hb, e => by
+    rw [List.map_cons, List.nodup_cons] at h
+    rcases List.mem_cons.mp ha with rfl | ha'
+    · rcases List.mem_cons.mp hb with rfl | hb'
+      · rfl
+      · exact absurd (e ▸ List.mem_map_of_mem hb') h.1
+    · rcases List.mem_cons.mp hb with rfl | hb'
+      · exact absurd (e ▸ List.mem_map_of_mem ha') h.1
+      · exact eq_of_key_nodup l h.2 a ha' b hb' e
+
 variable [DecidableEq K]
 
 theorem lastC_mem (ck : CKey K) (l : List (W K F E)) : ∀ (f : F), lastC ck l = some f → W.c ck f ∈ l := by
@@ -209,6 +268,44 @@ theorem lastE_none_of_not_mem (ck : CKey K) (l : List (W K F E)) (h : ∀ e, W.e
   | none => rfl
   | some e => exact absurd (lastE_mem ck l e hl) (h e)
 
+theorem lastE_written_of_mem (ck : CKey K) (e : E) (l : List (W K F E)) :
+    W.e ck e ∈ l → ∃ g, lastE ck l = some g := by
+  induction l with
+  | nil => intro h; simp at h
+  | cons w l ih =>
+    intro h
+    cases w with
+    | e ck' g =>
+      simp only [lastE]
+      cases hl : lastE ck l with
+      | some g' => exact ⟨g', rfl⟩
+      | none =>
+        rcases List.mem_cons.1 h with h1 | h2
+        · have hk : ck = ck' := by injection h1
+          exact ⟨g, by simp [hk]⟩
+        · obtain ⟨g', hg'⟩ := ih h2
+          rw [hl] at hg'; cases hg'
+    | c ck' g =>
+      simp only [lastE]
+      rcases List.mem_cons.1 h with h1 | h2
+      · cases h1
+      · exact ih h2
+
+/-- when no composite key is written twice, the last value written is the value written -/
+theorem lastC_eq_of_mem (l : List (W K F E)) (nd : (l.map W.key).Nodup) (ck : CKey K) (f : F)
+    (hm : W.c ck f ∈ l) : lastC ck l = some f := by
+  obtain ⟨g, hg⟩ := lastC_some_of_mem ck f l hm
+  have := eq_of_key_nodup l nd _ hm _ (lastC_mem ck l g hg) rfl
+  injection this with _ h2
+  rw [hg, h2]
+
+theorem lastE_eq_of_mem (l : List (W K F E)) (nd : (l.map W.key).Nodup) (ck : CKey K) (e : E)
+    (hm : W.e ck e ∈ l) : lastE ck l = some e := by
+  obtain ⟨g, hg⟩ := lastE_written_of_mem ck e l hm
+  have := eq_of_key_nodup l nd _ hm _ (lastE_mem ck l g hg) rfl
+  injection this with _ h2
+  rw [hg, h2]
+
 theorem applyW_cache (l : List (W K F E)) : ∀ (st : St K F E) (ck : CKey K),
     (applyW st l).cache ck = match lastC ck l with | some f => some f | none => st.cache ck := by
   induction l with
@@ -244,53 +341,62 @@ theorem applyW_all (l : List (W K F E)) : ∀ (st : St K F E), (applyW st l).all
 
 variable (plan : K → Plan F E)
 
+theorem mem_ws (k : K) (w : W K F E) : w ∈ ws plan k ↔ w ∈ writes k (plan k).ranks [] := by
+  unfold ws; exact List.mem_reverse
+
 /-- writes of key `k` only touch composite keys whose tuple part is `k` -/
 theorem ws_key (k : K) (ck : CKey K) (hk : ck.2 ≠ k) :
     lastC ck (ws plan k) = none ∧ lastE ck (ws plan k) = none := by
   constructor
-  · exact lastC_none_of_not_mem _ _ fun f hm => hk (writes_keys k _ _ _ hm).1
-  · exact lastE_none_of_not_mem _ _ fun e hm => hk (writes_keys k _ _ _ hm).1
+  · exact lastC_none_of_not_mem _ _ fun f hm => hk (writes_keys k _ _ _ ((mem_ws plan k _).1 hm)).1
+  · exact lastE_none_of_not_mem _ _ fun e hm => hk (writes_keys k _ _ _ ((mem_ws plan k _).1 hm)).1
 
 /-- the three structural facts of the prototype's `PlanOK` (`top_entry_ranks`, `top_excl`, `next_entry_top`):
     any published entry of `k` means that the plan has ranks, the ordinary key has an entry and no error -/
 theorem ws_entry_top (k : K) (c : Option Code) (f : F) (h : lastC (c, k) (ws plan k) = some f) :
     (plan k).ranks.isEmpty = false ∧ lastE (none, k) (ws plan k) = none ∧
       ∃ g, lastC (none, k) (ws plan k) = some g := by
-  have hm := lastC_mem _ _ _ h
-  unfold ws at hm ⊢
+  have hm := (mem_ws plan k _).1 (lastC_mem _ _ _ h)
   cases hr : (plan k).ranks with
   | nil => rw [hr] at hm; simp [writes] at hm
   | cons r rs =>
     rw [hr] at hm
-    rw [writes_cons] at hm ⊢
+    rw [writes_cons] at hm
     cases hf : r.func with
     | none => rw [hf] at hm; simp at hm
     | some g =>
-      simp only [tups, List.isEmpty_nil, if_true, List.map_cons, List.map_nil, List.cons_append, List.nil_append]
-      refine ⟨rfl, ?_, lastC_some_of_mem _ g _ (List.mem_cons_self ..)⟩
-      apply lastE_none_of_not_mem
-      intro e he
-      rcases List.mem_cons.1 he with h1 | h2
-      · cases h1
-      · cases hce : r.codes.isEmpty with
-        | true => rw [hce] at h2; simp at h2
-        | false =>
-          rw [hce] at h2
-          simp only [Bool.false_eq_true, if_false] at h2
-          have := (writes_keys k rs r.codes _ h2).2.1 rfl
-          rw [this] at hce; simp at hce
+      have hw : writes k (plan k).ranks [] =
+          W.c (none, k) g :: (if r.codes.isEmpty then [] else writes k rs r.codes) := by
+        rw [hr, writes_cons, hf]
+        simp [tups]
+      refine ⟨rfl, ?_, ?_⟩
+      · apply lastE_none_of_not_mem
+        intro e he
+        have he' := (mem_ws plan k _).1 he
+        rw [hw] at he'
+        rcases List.mem_cons.1 he' with h1 | h2
+        · cases h1
+        · cases hce : r.codes.isEmpty with
+          | true => rw [hce] at h2; simp at h2
+          | false =>
+            rw [hce] at h2
+            simp only [Bool.false_eq_true, if_false] at h2
+            have := (writes_keys k rs r.codes _ h2).2.1 rfl
+            rw [this] at hce; simp at hce
+      · have hmem : W.c (none, k) g ∈ ws plan k := (mem_ws plan k _).2 (by rw [hw]; exact List.mem_cons_self ..)
+        exact lastC_some_of_mem _ g _ hmem
 
 /-- prototype's `next_entry_no_err` -/
 theorem ws_entry_no_err (ok : PlanOK plan) (k : K) (c : Code) (f : F)
     (h : lastC (some c, k) (ws plan k) = some f) : lastE (some c, k) (ws plan k) = none := by
   apply lastE_none_of_not_mem
   intro e he
-  exact writes_no_err k c f e (plan k).ranks [] (by simpa using ok.codes_nodup k) (lastC_mem _ _ _ h) he
+  exact writes_no_err k c f e (plan k).ranks [] (by simpa using ok.codes_nodup k) ((mem_ws plan k _).1 (lastC_mem _ _ _ h)) ((mem_ws plan k _).1 he)
 
 /-- prototype's `next_entry_code` -/
 theorem ws_entry_code (ok : PlanOK plan) (k : K) (c : Code) (f : F)
     (h : lastC (some c, k) (ws plan k) = some f) : (plan k).allCodes.contains c = true := by
-  have := (writes_keys k (plan k).ranks [] _ (lastC_mem _ _ _ h)).2.2 c rfl
+  have := (writes_keys k (plan k).ranks [] _ ((mem_ws plan k _).1 (lastC_mem _ _ _ h))).2.2 c rfl
   rcases this with h1 | h2
   · cases h1
   · exact List.contains_iff_mem.2 (ok.codes_sub k c h2)
@@ -302,6 +408,47 @@ theorem inv_empty : CInv plan (St.empty : St K F E) :=
     closed_c := by intro _ h; exact absurd rfl h
     closed_e := by intro _ h; exact absurd rfl h
     top_all := by intro _ _ h; cases h }
+
+/-- no composite key of `k` is written twice -/
+theorem ws_keys_nodup (ok : PlanOK plan) (k : K) : ((ws plan k).map W.key).Nodup := by
+  unfold ws
+  rw [List.map_reverse]
+  have nd := writes_keys_nodup (F := F) (E := E) k (plan k).ranks [] (by simpa using ok.codes_nodup k)
+  unfold List.Nodup at nd ⊢
+  rw [List.pairwise_reverse]
+  exact nd.imp (fun hne => Ne.symm hne)
+
+/-- the entry of the looked-up key itself is the LAST write: a prefix of the writes that contains it is all of
+    them -/
+theorem ws_take_top (k : K) (n : Nat) (g : F) (h : W.c (none, k) g ∈ (ws plan k).take n) :
+    (ws plan k).take n = ws plan k := by
+  have hm := (mem_ws plan k _).1 (List.mem_of_mem_take h)
+  cases hr : (plan k).ranks with
+  | nil => rw [hr] at hm; simp [writes] at hm
+  | cons r rs =>
+    rw [hr, writes_cons] at hm
+    cases hf : r.func with
+    | none => rw [hf] at hm; simp at hm
+    | some f =>
+      have hw : ws plan k =
+          (if r.codes.isEmpty then [] else writes k rs r.codes).reverse ++ [W.c (none, k) f] := by
+        unfold ws
+        rw [hr, writes_cons, hf]
+        simp [tups]
+      by_cases hn : n ≤ (if r.codes.isEmpty then [] else writes k rs r.codes : List (W K F E)).reverse.length
+      · exfalso
+        rw [hw, List.take_append_of_le_length hn] at h
+        have h2 := List.mem_reverse.1 (List.mem_of_mem_take h)
+        cases hce : r.codes.isEmpty with
+        | true => rw [hce] at h2; simp at h2
+        | false =>
+          rw [hce] at h2
+          simp only [Bool.false_eq_true, if_false] at h2
+          have := (writes_keys k rs r.codes _ h2).2.1 rfl
+          rw [this] at hce; simp at hce
+      · apply List.take_of_length_le
+        rw [hw, List.length_append, List.length_singleton]
+        omega
 
 theorem resolve_cache (st : St K F E) (k : K) (ck : CKey K) :
     (resolve plan k st).cache ck = match lastC ck (ws plan k) with | some f => some f | none => st.cache ck := by
@@ -350,7 +497,7 @@ theorem inv_resolve (st : St K F E) (k : K) (hf : (plan k).fail = false) (h : CI
         | none => rfl
         | some f => have := (h.cache_sub (c, k') f hs).1; simp at this; rw [hl] at this; cases this
     · rw [(loc (c, k') hk).1]
-      rw [resolve_all] at ha; simp [hk] at ha
+      rw [resolve_cache, (loc (none, k') hk).1] at ha
       exact h.closed_c k' ha c
   · intro k' ha c
     rw [resolve_errors]
@@ -364,7 +511,7 @@ theorem inv_resolve (st : St K F E) (k : K) (hf : (plan k).fail = false) (h : CI
         | none => rfl
         | some f => have := (h.errors_sub (c, k') f hs).1; simp at this; rw [hl] at this; cases this
     · rw [(loc (c, k') hk).2]
-      rw [resolve_all] at ha; simp [hk] at ha
+      rw [resolve_cache, (loc (none, k') hk).1] at ha
       exact h.closed_e k' ha c
   · intro k' f hc
     rw [resolve_all]
@@ -396,9 +543,20 @@ theorem lookupTop_spec (st : St K F E) (k : K) (h : CInv plan st) :
       | true => simp only [if_true]; exact ⟨by simp [pureTop, hf, hr], hi⟩
       | false =>
         simp only [Bool.false_eq_true, if_false]
-        have ha : (resolve plan k st).all k ≠ none := by rw [resolve_all]; simp
-        have ec := hi.closed_c k ha none
-        have ee := hi.closed_e k ha none
+        -- the writes just applied override whatever was there: a stale error of an interrupted resolution
+        -- is, by `errors_sub`, one of the values written now
+        have ec : (resolve plan k st).cache (none, k) = lastC (none, k) (ws plan k) := by
+          rw [resolve_cache, hc]
+          cases lastC (none, k) (ws plan k) <;> rfl
+        have ee : (resolve plan k st).errors (none, k) = lastE (none, k) (ws plan k) := by
+          rw [resolve_errors]
+          cases hl : lastE (none, k) (ws plan k) with
+          | some e => rfl
+          | none =>
+            simp only []
+            cases hs : st.errors (none, k) with
+            | none => rfl
+            | some e => have := (h.errors_sub (none, k) e hs).1; simp at this; rw [hl] at this; cases this
         rw [ee, ec]
         simp only [pureTop, hf, hr, Bool.false_eq_true, if_false]
         cases lastE (none, k) (ws plan k) with
@@ -480,9 +638,10 @@ theorem lookupNext_spec (ok : PlanOK plan) (st : St K F E) (c : Code) (k : K) (h
     simp only []
     have ⟨ht, hi⟩ := lookupTop_spec plan st k h
     have hall := lookupTop_all plan st k h
-    generalize hl : lookupTop plan st k = p at ht hi hall
+    have htop := lookupTop_ok plan st k
+    generalize hl : lookupTop plan st k = p at ht hi hall htop
     obtain ⟨st', r⟩ := p
-    simp only [] at ht hi hall
+    simp only [] at ht hi hall htop
     subst ht
     unfold pureNext
     cases hp : pureTop plan k with
@@ -493,6 +652,7 @@ theorem lookupNext_spec (ok : PlanOK plan) (st : St K F E) (c : Code) (k : K) (h
     | ok f =>
       simp only []
       have ha := hall f hp
+      have hne : st'.cache (none, k) ≠ none := by rw [htop f hp]; simp
       cases hA : st'.all k with
       | none => exact absurd hA ha
       | some cs =>
@@ -502,7 +662,7 @@ theorem lookupNext_spec (ok : PlanOK plan) (st : St K F E) (c : Code) (k : K) (h
         cases hm : (plan k).allCodes.contains c with
         | true =>
           simp only [Bool.not_true, Bool.false_eq_true, if_false]
-          rw [hi.closed_e k ha (some c), hi.closed_c k ha (some c)]
+          rw [hi.closed_e k hne (some c), hi.closed_c k hne (some c)]
           cases lastE (some c, k) (ws plan k) with
           | some e => exact ⟨rfl, hi⟩
           | none =>
@@ -668,6 +828,124 @@ theorem warm_no_resolve (ok : PlanOK plan) (st : St K F E) (hi : CInv plan st) (
       simp [resolves, h2]
     · have h2 := run_cache_monotone plan ok (none, k) g hist _ hi' hg
       simp [resolves, h2]
+
+/-! ## interrupted resolutions -/
+
+theorem resolvePartial_cache (st : St K F E) (k : K) (n : Nat) (ck : CKey K) :
+    (resolvePartial plan k n st).cache ck =
+      match lastC ck ((ws plan k).take n) with | some f => some f | none => st.cache ck := by
+  unfold resolvePartial; rw [applyW_cache]
+
+theorem resolvePartial_errors (st : St K F E) (k : K) (n : Nat) (ck : CKey K) :
+    (resolvePartial plan k n st).errors ck =
+      match lastE ck ((ws plan k).take n) with | some f => some f | none => st.errors ck := by
+  unfold resolvePartial; rw [applyW_errors]
+
+theorem resolvePartial_all (st : St K F E) (k : K) (n : Nat) (k' : K) :
+    (resolvePartial plan k n st).all k' = if k' = k then some (plan k).allCodes else st.all k' := by
+  unfold resolvePartial; rw [applyW_all]
+
+/-- an interrupt after all the writes is no interrupt -/
+theorem resolvePartial_full (st : St K F E) (k : K) (n : Nat) (h : (ws plan k).take n = ws plan k) :
+    resolvePartial plan k n st = resolve plan k st := by
+  unfold resolvePartial resolve; rw [h]
+
+/-- a resolution interrupted after any number of its writes preserves the invariant: the entry of the key itself
+    is written last, so either all writes are present or the invariant promises nothing about this key -/
+theorem inv_resolvePartial (ok : PlanOK plan) (st : St K F E) (k : K) (n : Nat) (hf : (plan k).fail = false)
+    (hc : st.cache (none, k) = none) (h : CInv plan st) : CInv plan (resolvePartial plan k n st) := by
+  cases hl : lastC (none, k) ((ws plan k).take n) with
+  | some g =>
+    rw [resolvePartial_full plan st k n (ws_take_top plan k n g (lastC_mem _ _ _ hl))]
+    exact inv_resolve plan st k hf h
+  | none =>
+    have nd := ws_keys_nodup plan ok k
+    have loc : ∀ ck : CKey K, ck.2 ≠ k →
+        lastC ck ((ws plan k).take n) = none ∧ lastE ck ((ws plan k).take n) = none := by
+      intro ck hk
+      constructor
+      · exact lastC_none_of_not_mem _ _ fun f hm =>
+          hk (writes_keys k _ _ _ ((mem_ws plan k _).1 (List.mem_of_mem_take hm))).1
+      · exact lastE_none_of_not_mem _ _ fun e hm =>
+          hk (writes_keys k _ _ _ ((mem_ws plan k _).1 (List.mem_of_mem_take hm))).1
+    have htop : (resolvePartial plan k n st).cache (none, k) = none := by
+      rw [resolvePartial_cache, hl]; exact hc
+    refine ⟨?_, ?_, ?_, ?_, ?_, ?_⟩
+    · intro ck f hc'
+      rw [resolvePartial_cache] at hc'
+      cases hl' : lastC ck ((ws plan k).take n) with
+      | some g =>
+        rw [hl'] at hc'; simp at hc'; subst hc'
+        have hm : W.c ck g ∈ ws plan k := List.mem_of_mem_take (lastC_mem _ _ _ hl')
+        have hk : ck.2 = k := (writes_keys k _ _ _ ((mem_ws plan k _).1 hm)).1
+        rw [hk]
+        exact ⟨lastC_eq_of_mem _ nd ck g hm, hf⟩
+      | none => rw [hl'] at hc'; exact h.cache_sub ck f hc'
+    · intro ck e hc'
+      rw [resolvePartial_errors] at hc'
+      cases hl' : lastE ck ((ws plan k).take n) with
+      | some g =>
+        rw [hl'] at hc'; simp at hc'; subst hc'
+        have hm : W.e ck g ∈ ws plan k := List.mem_of_mem_take (lastE_mem _ _ _ hl')
+        have hk : ck.2 = k := (writes_keys k _ _ _ ((mem_ws plan k _).1 hm)).1
+        rw [hk]
+        exact ⟨lastE_eq_of_mem _ nd ck g hm, hf⟩
+      | none => rw [hl'] at hc'; exact h.errors_sub ck e hc'
+    · intro k' cs hc'
+      rw [resolvePartial_all] at hc'
+      by_cases hk : k' = k
+      · subst hk; simp at hc'; exact ⟨hc'.symm, hf⟩
+      · simp [hk] at hc'; exact h.all_eq k' cs hc'
+    · intro k' ha c
+      by_cases hk : k' = k
+      · subst hk; exact absurd htop ha
+      · rw [resolvePartial_cache, (loc (c, k') hk).1]
+        rw [resolvePartial_cache, (loc (none, k') hk).1] at ha
+        exact h.closed_c k' ha c
+    · intro k' ha c
+      by_cases hk : k' = k
+      · subst hk; exact absurd htop ha
+      · rw [resolvePartial_errors, (loc (c, k') hk).2]
+        rw [resolvePartial_cache, (loc (none, k') hk).1] at ha
+        exact h.closed_e k' ha c
+    · intro k' f hc'
+      rw [resolvePartial_all]
+      by_cases hk : k' = k
+      · simp [hk]
+      · simp only [hk, if_false]
+        rw [resolvePartial_cache, (loc (none, k') hk).1] at hc'
+        exact h.top_all k' f hc'
+
+theorem inv_lookupTopCut (ok : PlanOK plan) (st : St K F E) (k : K) (n : Nat) (h : CInv plan st) :
+    CInv plan (lookupTopCut plan st k n) := by
+  unfold lookupTopCut
+  cases hc : st.cache (none, k) with
+  | some f => exact h
+  | none =>
+    simp only []
+    cases hf : (plan k).fail with
+    | true => exact h
+    | false =>
+      simp only [Bool.false_eq_true, if_false]
+      exact inv_resolvePartial plan ok st k n hf hc h
+
+/-- an interrupted lookup preserves the cache invariant, wherever the interrupt falls -/
+theorem lookupCut_inv (ok : PlanOK plan) (st : St K F E) (ck : CKey K) (n : Nat) (h : CInv plan st) :
+    CInv plan (lookupCut plan st ck n) := by
+  obtain ⟨c, k⟩ := ck
+  cases c with
+  | none => exact inv_lookupTopCut plan ok st k n h
+  | some c =>
+    show CInv plan (match st.cache (some c, k) with | some _ => st | none => lookupTopCut plan st k n)
+    cases st.cache (some c, k) with
+    | some f => exact h
+    | none => exact inv_lookupTopCut plan ok st k n h
+
+theorem runL_inv (ok : PlanOK plan) : ∀ (hist : List (LOp K)) (st : St K F E), CInv plan st →
+    CInv plan (runL plan st hist)
+  | [], _, h => h
+  | .look ck :: rest, st, h => runL_inv ok rest _ (lookup_spec plan ok st ck h).2
+  | .cut ck n :: rest, st, h => runL_inv ok rest _ (lookupCut_inv plan ok st ck n h)
 
 end
 end Ovld
